@@ -60,6 +60,7 @@ const (
 	kErrOpt // a named error result: Option String (none = nil)
 	kOpaque // a type of spec.Opaque: a Lean type parameter; values are only passed on
 	kOrd    // float32 under spec.FloatAbs: a Lean type parameter with a decidable `<` (only < and > are translated)
+	kOpt    // *float32 under spec.FloatAbs: Option (nil = none); made by &v of a variable assigned once, read by *p
 )
 
 type xty struct {
@@ -96,7 +97,7 @@ func sameTy(a, b *xty) bool {
 		return false
 	}
 	switch a.k {
-	case kList:
+	case kList, kOpt:
 		return sameTy(a.elem, b.elem)
 	case kMap:
 		return sameTy(a.key, b.key) && sameTy(a.elem, b.elem)
@@ -217,6 +218,8 @@ func (t *xty) lean() string {
 		return "Option String"
 	case kOpaque, kOrd:
 		return t.name
+	case kOpt:
+		return "Option " + parenT(t.elem.lean())
 	case kList:
 		if t.elem.k == kByte {
 			return "Bytes"
@@ -265,6 +268,7 @@ type structSpec struct {
 	Name string   // Go type name
 	Only []string // if set: the fields that are modelled (any other field access is an error)
 	Caps []string // slice fields whose capacity is read (`cap(s.f)`): each gets the ghost field f_cap : Int
+	Drop []string // fields that are not modelled although literals set them: their (call-free) initialisers are not translated
 }
 
 type xfield struct {
@@ -278,6 +282,7 @@ type xstruct struct {
 	poly    bool            // a field mentions `any`: the structure has the type parameter α
 	tparams []string        // further type parameters (spec.Opaque / spec.FloatAbs names the fields mention)
 	caps    map[string]bool // fields with a ghost capacity field
+	drop    map[string]bool // fields left out although literals set them (structSpec.Drop)
 }
 
 func (x *xtr) structTy(name string) *xty {
@@ -304,6 +309,9 @@ func (x *xtr) typeBinders(alpha bool, names []string, inhabited bool) string {
 	for _, n := range names {
 		if x.ordParams[n] {
 			s += "[LT " + n + "] [DecidableRel (α := " + n + ") (· < ·)] "
+			if x.sp.FloatLE {
+				s += "[LE " + n + "] [DecidableRel (α := " + n + ") (· ≤ ·)] "
+			}
 		}
 	}
 	return s
@@ -390,6 +398,8 @@ type xtr struct {
 	ordParams      map[string]bool        // type parameters that stand for float32 (spec.FloatAbs)
 	inhabited      bool                   // the zero value of a type parameter is needed: [Inhabited _] binders
 	methods        map[string]*xmethod    // spec.Methods: "LeanType.Method" -> abstract method of an opaque type
+	capVars        map[string]string      // spec.CapVars: slice variable -> the Int variable that holds its capacity
+	fnBody         *ast.BlockStmt         // the body being translated (for whole-function checks)
 }
 
 // a method of an opaque (interface) type, kept abstract: the parameter <Type>_<Method> of the translated
@@ -532,6 +542,9 @@ func (x *xtr) goTy(e ast.Expr) *xty {
 			if _, ok := x.structs[id.Name]; ok {
 				return x.structTy(id.Name)
 			}
+			if id.Name == "float32" && x.sp.FloatAbs != "" {
+				return &xty{k: kOpt, elem: x.goTy(t.X)}
+			}
 		}
 	case *ast.SelectorExpr:
 		if id, ok := t.X.(*ast.Ident); ok {
@@ -615,6 +628,8 @@ func (x *xtr) zero(n ast.Node, t *xty) string {
 		return "\"\""
 	case kList, kMap:
 		return "[]"
+	case kOpt:
+		return "none"
 	case kStruct:
 		return t.name + ".zero"
 	case kAny:
